@@ -540,3 +540,79 @@ func pickedItems(fn *ssa.Function, ta *ssa.TypeAssert) []*ssa.Store {
 func (c *coord) at(in ssa.Instruction) string {
 	return engine.FuncName(in.Parent()) + " (" + c.p.Rel(in.Pos()) + ")"
 }
+
+// decisionSite: a block in which it is decided that an instruction elsewhere runs, with the condition under which
+// the decision is positive there (nil: unconditionally).
+type decisionSite struct {
+	blk    *ssa.BasicBlock
+	assume *engine.Formula
+}
+
+// implies decides PC(site) ∧ assume ⇒ f.
+func (d decisionSite) implies(fi *engine.FuncInfo, f *engine.Formula) (bool, []string) {
+	if d.assume == nil {
+		return fi.Implies(d.blk, f)
+	}
+	return fi.Implies(d.blk, engine.Or(engine.Not(d.assume), f))
+}
+
+// decisionSites: where it is decided that the instruction runs. Normally its own block; when the instruction is
+// guarded by a boolean variable that is set earlier (found := false; for .. { if cond { found = true; break } };
+// if found { instruction }) the places that can make the variable true.
+func (c *coord) decisionSites(at ssa.Instruction) []decisionSite {
+	blk := at.Block()
+	fi := c.p.Info(at.Parent())
+	own := []decisionSite{{blk: blk}}
+	for d := blk.Idom(); d != nil; d = d.Idom() {
+		iff, ok := d.Instrs[len(d.Instrs)-1].(*ssa.If)
+		if !ok {
+			continue
+		}
+		onTrue := d.Succs[0] == blk || d.Succs[0].Dominates(blk)
+		// (an edge back to an enclosing loop's header does not lead here without coming through d again)
+		onFalse := !fi.IsBackEdge(d, d.Succs[1]) && (d.Succs[1] == blk || d.Succs[1].Dominates(blk))
+		if fi.IsBackEdge(d, d.Succs[0]) {
+			onTrue = false
+		}
+		if !onTrue || onFalse {
+			continue
+		}
+		ph, ok := iff.Cond.(*ssa.Phi)
+		if !ok {
+			return own
+		}
+		out := phiTrueSites(fi, ph)
+		if len(out) == 0 {
+			return own
+		}
+		return out
+	}
+	return own
+}
+
+// phiTrueSites: the places that can make a boolean variable (in SSA: a phi) true.
+func phiTrueSites(fi *engine.FuncInfo, ph *ssa.Phi) []decisionSite {
+	var out []decisionSite
+	seen := map[*ssa.Phi]bool{}
+	var walk func(q *ssa.Phi)
+	walk = func(q *ssa.Phi) {
+		if seen[q] {
+			return
+		}
+		seen[q] = true
+		for i, e := range q.Edges {
+			switch x := e.(type) {
+			case *ssa.Const:
+				if isConstBool(x, true) {
+					out = append(out, decisionSite{blk: q.Block().Preds[i]})
+				}
+			case *ssa.Phi:
+				walk(x)
+			default:
+				out = append(out, decisionSite{blk: q.Block().Preds[i], assume: fi.Cond(e)})
+			}
+		}
+	}
+	walk(ph)
+	return out
+}
